@@ -764,7 +764,11 @@ fn start_incarnation(
     let k = &sc.knobs;
     let truth: SharedTruth = Arc::new(std::sync::Mutex::new(Truth::default()));
     let lifecycle = SimLifecycle { truth: truth.clone(), commanders: Default::default(), late_commanders: Default::default(), remote_host: k.remote_host, fail_on_multiple_of: k.fail_on_multiple_of };
-    let model = AgentModel::new(SimAgent::default, lifecycle.into_lifecycle());
+    let model = if k.initial_contents {
+        AgentModel::new(SimAgent::with_initial_contents, lifecycle.into_lifecycle())
+    } else {
+        AgentModel::new(SimAgent::default, lifecycle.into_lifecycle())
+    };
     let (att_tx, att_rx) = mpsc::channel(k.att_queue.max(1) as usize);
     let (http_tx, http_rx) = mpsc::channel(4);
     let (link_tx, link_rx) = mpsc::channel(8);
